@@ -792,8 +792,10 @@ class Gen:
         """operations on (multi-namespace) associations, rejected for the reasons specific to them"""
         rng = self.rng
         for _ in range(20):
-            reason = rng.choice(['create_cross', 'create_cross', 'create_same', 'multi_noclass', 'multi_exists', 'onesided',
-                                 'delete_onesided', 'modify_onesided', 'delete_multi', 'modify_multi', 'ref_missing',
+            reason = rng.choice(['create_cross', 'create_cross', 'create_same', 'cross_case_dup', 'cross_case_dup',
+                                 'multi_noclass', 'multi_exists', 'onesided',
+                                 'delete_onesided', 'modify_onesided', 'delete_multi', 'modify_multi', 'modify_retarget_third',
+                                 'modify_retarget_third', 'ref_missing',
                                  'ref_bad_ns', 'ref_host', 'ref_no_ns', 'ref_null', 'case_ns'])
             op = self.g_assoc(st, reason)
             if op is not None:
@@ -804,6 +806,27 @@ class Gen:
         rng = self.rng
         n = self.pick_ns(st, nonempty=True)
         assocs = [c for c in n['classes'] if self.is_assoc(c) and any(p['ty'] == 'reference' for p in c['props'])]
+        if reason == 'cross_case_dup':
+            # every reference names the SAME other namespace, in different lexical case: one copy there, not two
+            if not assocs or len(st['nss']) < 2:
+                return None
+            c = rng.choice(assocs)
+            other = rng.choice([m for m in st['nss'] if m['name'].lower() != n['name'].lower()])
+            props = []
+            variants = [other['name'], other['name'].upper(), other['name'].lower().title(), other['name'].swapcase()]
+            vi = 0
+            for p in c['props']:
+                if p['ty'] == 'reference':
+                    r = self.ref_to(st, p['ref'], other['name'], other_ns=False)
+                    if r is None:
+                        return None
+                    r['ref']['ns'] = variants[vi % len(variants)]
+                    vi += 1
+                    props.append(pv(p['name'], 'reference', r))
+                elif p in self.keyprops(c):
+                    props.append(pv(p['name'], 'string', sval(self.fresh('a'))))
+            return {'op': 'createInstance', 'ns': n['name'], 'inst': {'cls': c['name'], 'props': props},
+                    'reason': 'assoc_cross_case_dup'}
         if reason in ('create_cross', 'create_same', 'ref_missing', 'ref_bad_ns', 'ref_host', 'ref_no_ns', 'ref_null', 'case_ns',
                       'multi_noclass', 'multi_exists'):
             if not assocs:
@@ -852,6 +875,34 @@ class Gen:
             return {'op': 'createInstance', 'ns': n['name'], 'inst': i, 'reason': 'assoc_' + reason}
         if reason == 'onesided':
             return self.make_onesided(st)
+        if reason == 'modify_retarget_third':
+            # a multi-namespace association whose non-key reference into another namespace is re-targeted to an
+            # instance in a THIRD namespace (no copy of the association there): rejected - and the copy in the
+            # namespace that is no longer referenced must still be there
+            cands = []
+            for m in st['nss']:
+                for x in m['insts']:
+                    c = self.find_class(m, x['cls'])
+                    if c is None or not self.is_assoc(c):
+                        continue
+                    keys = {p['name'].lower() for p in self.keyprops(c)}
+                    for p in x['props']:
+                        if p['ty'] == 'reference' and p['name'].lower() not in keys and p['val'] is not None and \
+                                p['val']['ref']['ns'] and p['val']['ref']['ns'].lower() != m['name'].lower():
+                            cands.append((m, x, c, p))
+            rng.shuffle(cands)
+            for m, x, c, p in cands:
+                decl = [d for d in c['props'] if d['name'].lower() == p['name'].lower()][0]
+                thirds = [t for t in st['nss'] if t['name'].lower() not in (m['name'].lower(), p['val']['ref']['ns'].lower())]
+                rng.shuffle(thirds)
+                for t in thirds:
+                    r = self.ref_to(st, decl['ref'], t['name'], other_ns=False)
+                    if r is not None:
+                        path = {'cls': x['path']['cls'], 'ns': None, 'keys': [[k, v] for k, v in x['path']['keys']]}
+                        return {'op': 'modifyInstance', 'ns': m['name'], 'path': path,
+                                'inst': {'cls': x['cls'], 'props': [pv(p['name'], 'reference', r)]},
+                                'reason': 'modify_retarget_third'}
+            return None
         multi = []
         for m in st['nss']:
             for x in m['insts']:
